@@ -175,7 +175,13 @@ NATIVE = {0: "CLOCK_REALTIME", 1: "CLOCK_MONOTONIC", 2: "CLOCK_PROCESS_CPUTIME_I
 PRECS = [0, 1, 999999, 1000000, 10 ** 9, 2 ** 63]
 
 
-def eval_history(ids, precs, answer):
+def HOSTSRC(cid, fallback):
+    if fallback:
+        return {0: "CLOCK_REALTIME (earlier reading rounded down to the microsecond gettimeofday delivers)", 2: "getrusage(RUSAGE_SELF) user+system time"}.get(cid, "n/a")
+    return NATIVE[cid]
+
+
+def eval_history(ids, precs, answer, fallback=False):
     """The property on one clock_time_get history (independent of the model): every reading of a valid id lies
     between the two readings of the host clock the specification names for that id taken directly around the call
     (no tolerance), readings of the non-settable clocks (monotonic, process and thread CPU time) never decrease across
@@ -184,7 +190,7 @@ def eval_history(ids, precs, answer):
     last = {}
     for i, (e, v, t0, t1) in enumerate(recs):
         cid, pr = ids[i % len(ids)], precs[i % len(precs)]
-        if cid >= 4:
+        if cid >= 4 or (fallback and cid not in (0, 2)):
             if e != 28:
                 return (f"clock-{cid}-einval", f"call #{i} clock_time_get(id={cid}, precision={pr}) returned {e}, EINVAL (28) required", i)
             continue
@@ -192,8 +198,8 @@ def eval_history(ids, precs, answer):
             return (f"clock-{cid}-fails", f"call #{i} clock_time_get(id={cid}, precision={pr}) failed with errno {e}", i)
         if not (t0 <= v <= t1):
             return (f"clock-{cid}-outside-host-bracket",
-                    f"call #{i} clock_time_get(id={cid}, precision={pr}) = {v} is not between the readings {t0} and {t1} of the host's {NATIVE[cid]} taken directly before and after the call ({t0 - v} ns before the earlier one)" if v < t0 else
-                    f"call #{i} clock_time_get(id={cid}, precision={pr}) = {v} is later than the reading {t1} of the host's {NATIVE[cid]} taken directly after the call", i)
+                    f"call #{i} clock_time_get(id={cid}, precision={pr}) = {v} is not between the readings {t0} and {t1} of the host's {HOSTSRC(cid, fallback)} taken directly before and after the call ({t0 - v} ns before the earlier one)" if v < t0 else
+                    f"call #{i} clock_time_get(id={cid}, precision={pr}) = {v} is later than the reading {t1} of the host's {HOSTSRC(cid, fallback)} taken directly after the call", i)
         if cid in (1, 2, 3) and cid in last and v < last[cid][0]:
             j = last[cid][1]
             return ("clock-monotonic-decreases" if cid == 1 else f"clock-{cid}-decreases",
@@ -280,6 +286,52 @@ def run_clocks(chk, exe, h, tier, broken, model_ok):
                               {"kind": "clock", "line": f"clockres {abi} {cid}", "real": " ".join(r), "expected": "28 -" if cid >= 4 else f"0 {r[-1]} {r[-1]}"}, True)
     chk.coverage["clocks"] = {"interposed_cases": len(lines), "precisions": [str(p) for p in precs], "history_calls_real_clocks": ncalls,
                               "histories": len(hists), "outcomes": kinds}
+
+
+def run_clocks_fallback(chk, exe_fb, tier, broken, model_ok):
+    """The library built WITHOUT POSIX timers (-DWASI_FALLBACK_TIMERS_ENABLED=1): realtime from gettimeofday, process
+    CPU time from getrusage, converted by convertTimeval (microseconds!).  Interposed host calls for exact values,
+    then histories on the real calls bracketed by host readings of the same source."""
+    rng = chk.rng
+    if wp.batch_once(exe_fb, ["clockconfig"])[0] != "fallback":
+        raise RuntimeError("fallback-timer harness was not built in the fallback configuration")
+    tvs = [(0, 0), (0, 1), (0, 999), (0, 1000), (1, 0), (1, 999999), (1700000000, 123456), (2 ** 31, 5), (9223372036, 854775), (9223372036, 854776), (9223372037, 0)]
+    tvs += [(rng.randrange(0, 9223372036), rng.randrange(0, 10 ** 6)) for _ in range(15 if tier == "quick" else 300)]
+    cases = [(cid, s, us) for cid in range(6) for (s, us) in tvs]
+    lines = [f"clockfb {cid} {s} {us}" for cid, s, us in cases]
+    real = wp.batch_once(exe_fb, lines)
+    model = vlib.DriverProc(PATHSDRIVER).batch(lines) if model_ok else None
+    src = {0: "gettimeofday", 2: "getrusage"}
+    for i, (cid, s, us) in enumerate(cases):
+        v = s * 10 ** 9 + us * 1000
+        exp = "28 - none" if cid not in src else (f"0 {v} {src[cid]}" if v < 2 ** 63 else None)
+        r = real[i]
+        chk.count_case("fb " + lines[i], True, {"line": lines[i], "config": "fallback timers", "real": r} if i % 30 == 1 else None)
+        if exp is not None and r != exp:
+            chk.violation(f"clock-fallback-{cid}-value", f"library built with -DWASI_FALLBACK_TIMERS_ENABLED=1: clock_time_get(id={cid}) with the host's {src.get(cid, 'n/a')} = ({s} s, {us} us): real `{r}`, required `{exp}` (seconds·10^9 + microseconds·1000)",
+                          {"kind": "clock-fallback", "line": lines[i], "real": r, "expected": exp}, True)
+        if model is not None:
+            same = (model[i] == r) or (model[i].startswith("ub signedOverflow") and r.startswith("crash ubsan") and "signed_integer_overflow" in r)
+            if not same:
+                broken.append({"kind": "correspondence", "msg": f"[fallback timers] {lines[i]}: real `{r[:80]}` model `{model[i][:80]}`"})
+    n = 400 if tier == "quick" else 4000
+    ncalls = 0
+    for abi in (0, 1):
+        for ids in ([0, 2, 1, 3, 4], [0], [2]):
+            line = f"clockhist {abi} {n} {','.join(map(str, ids))} 1,1000000,0"
+            ans = wp.batch_once(exe_fb, [line])[0]
+            ncalls += n
+            chk.count_case("fb " + line, True, None)
+            if ans.startswith(("crash", "err")):
+                chk.violation("clock-fallback-history-crash", f"[fallback timers] history crashed: {ans[:160]}", {"kind": "clock-fallback", "line": line, "real": ans, "expected": "records"}, True)
+                continue
+            bad = eval_history(ids, [1, 1000000, 0], ans, fallback=True)
+            if bad:
+                key, text, idx = bad
+                chk.violation(key.replace("clock-", "clock-fallback-", 1), f"library built with -DWASI_FALLBACK_TIMERS_ENABLED=1, history of {n} clock_time_get calls (ids cycling {ids}): {text}",
+                              {"kind": "clockhist-fallback", "abi": abi, "n": n, "ids": ids, "precisions": [1, 1000000, 0], "line": line, "failing_call": idx,
+                               "calls_up_to_failure": history_window(ids, [1, 1000000, 0], ans, idx)}, True)
+    chk.coverage["clocks_fallback_config"] = {"interposed_cases": len(lines), "history_calls": ncalls}
 
 
 # ----------------------------------------------------------------------------- random / exit / spawn
@@ -469,6 +521,8 @@ def run(tier):
         run_vectors(chk, exe, tier, broken, model_ok)
         run_argc(chk, exe, tier, broken, model_ok)
         run_clocks(chk, exe, h, tier, broken, model_ok)
+        exe_fb = wp.build(repo, d, extra_defs=["-DWASI_FALLBACK_TIMERS_ENABLED=1"], suffix="_fb")
+        run_clocks_fallback(chk, exe_fb, tier, broken, model_ok)
         run_random(chk, h, tier, broken, model_ok)
         run_exit(chk, h, tier, broken, model_ok)
         run_spawn(chk, h, tier, broken, model_ok)
@@ -504,6 +558,23 @@ def replay(path):
             out = h.ask(f"random {r['len']}")
             print(f"replay random_get(len={r['len']}): real `{out}` (errno, bytes written, outside changed), required `{r['expected']}`")
             rc = 0 if out == r["expected"] else 1
+        elif kind in ("clock-fallback", "clockhist-fallback"):
+            exe_fb = wp.build(repo, d, extra_defs=["-DWASI_FALLBACK_TIMERS_ENABLED=1"], suffix="_fb")
+            rc = 0
+            if kind == "clock-fallback":
+                out = wp.batch_once(exe_fb, [r["line"]])[0]
+                print(f"replay [library built with -DWASI_FALLBACK_TIMERS_ENABLED=1] `{r['line']}`: real `{out}`, required `{r['expected']}`")
+                rc = 0 if out == r["expected"] else 1
+            else:
+                print("replay of a timing history (fallback-timer build): re-run up to 5 times; one failing run reproduces the violation")
+                for attempt in range(1, 6):
+                    ans = wp.batch_once(exe_fb, [r["line"]])[0]
+                    bad = eval_history(r["ids"], r["precisions"], ans, fallback=True)
+                    if bad:
+                        print(f"replay attempt {attempt}/5: FAILS — {bad[1]}")
+                        rc = 1
+                        break
+                    print(f"replay attempt {attempt}/5: {r['n']} calls, every reading inside its host bracket")
         elif kind == "clockhist":
             # a timing history: the property must hold on EVERY run, so up to 5 attempts are made and one failing attempt is a reproduction
             rc = 0
@@ -528,7 +599,19 @@ def replay(path):
             out = h.ask(r["line"])
             print(f"replay wasiInit(argc={r['argc']}, argv={'NULL' if r['argv'] is None else str(len(r['argv'])) + ' strings + NULL'}) + args_sizes_get/args_get: real `{out[:120]}`, required `{r['expected'][:120]}`")
             rc = 0 if out == r["expected"] else 1
-        elif kind in ("vector", "clock", "spawn"):
+        elif kind == "spawn":
+            # a concurrent run: the interleaving differs from run to run, so it is repeated and additionally run under the
+            # schedule "every new thread finishes before its spawner continues" (legal, and deterministic)
+            rc = 0
+            print("replay of a concurrent thread-spawn run: 3 free-running attempts, then the same run under the child-runs-first schedule; one failing run reproduces the violation")
+            for attempt, line in enumerate([r["line"]] * 3 + [r["line"] + " 1"], 1):
+                out = h.ask(line)
+                ok = out == r["expected"]
+                print(f"replay attempt {attempt}/4 `{line}`: real `{out[:160]}`" + ("" if ok else f" — required `{r['expected'][:160]}`"))
+                if not ok:
+                    rc = 1
+                    break
+        elif kind in ("vector", "clock"):
             out = h.ask(r["line"])
             print(f"replay `{r['line'][:100]}`: real `{out[:200]}`, required `{str(r['expected'])[:200]}`")
             rc = 0 if out == r["expected"] else 1
